@@ -1,5 +1,6 @@
 //! pvharness <property> --seed N --count K --out DIR [--tmp DIR]
 //! Runs the real crate on generated inputs and writes cases / observations for the Coq model to re-evaluate.
+mod c01;
 mod c05;
 mod c07;
 mod c08;
@@ -14,6 +15,7 @@ mod c17;
 mod c18;
 mod gen;
 mod out;
+mod pdbgen;
 mod rng;
 mod snap;
 mod textgen;
@@ -79,6 +81,7 @@ fn main() {
     }
     let mut out = out::Out::new(&outdir);
     match prop.as_str() {
+        "C01" => c01::run(seed, count, thorough, &mut out),
         "C05" => c05::run(seed, count, thorough, &mut out),
         "C07" => c07::run(seed, count, &mut out, &tmp),
         "C08" => c08::run(seed, count, thorough, &mut out),
